@@ -30,14 +30,14 @@ structure LimitD where
   weekly : Bool
   value : Int             -- slots: int(hours / slotHours)
   res : Option Nat := none
-  deriving Repr, Inhabited
+  deriving Repr, BEq, Inhabited
 
 structure ResD where
   parent : Option Nat := none
   leaf : Bool := true
   eff : Rat := 1          -- `efficiency or 1.0`
   limits : List Nat := [] -- own limit ids
-  deriving Repr, Inhabited
+  deriving Repr, BEq, Inhabited
 
 structure TaskD where
   parent : Option Nat := none
@@ -57,7 +57,7 @@ structure TaskD where
   explicitMode : Bool := false    -- `_explicit_scheduling`
   limits : List Nat := []         -- own limit ids
   children : List Nat := []
-  deriving Repr, Inhabited
+  deriving Repr, BEq, Inhabited
 
 structure Env where
   G : Int
